@@ -104,6 +104,10 @@ def dec_term(ctx, n):
             tm.mk_and(tm.T('str.prefixof', (tm.const('-'), t), tm.BOOL),
                       tm.mk_le(tm.const(2), tm.mk_len(t)))))
         ctx.axioms.append(tm.mk_eq(tm.mk_eq(t, tm.const('0')), tm.mk_eq(n, tm.const(0))))
+        # consequences of the digit language, stated explicitly to spare the solver a regex derivation
+        for ch in ('!', ':'):
+            ctx.axioms.append(tm.mk_not(tm.T('str.contains', (t, tm.const(ch)), tm.BOOL)))
+        ctx.axioms.append(tm.mk_le(tm.const(1), tm.mk_len(t)))
     return t
 
 
